@@ -127,6 +127,7 @@ class ImplRun:
         REC.begin_op()
         self.mab = make_mab(cfg)
         self.main_sid = self.mab._rng.sid
+        self.reward_scale = 0.0          # largest |reward| handed to the bandit so far (scale of "near tie")
 
     def _labels(self):
         return [k for k, _ in sorted(self.ids.items(), key=lambda kv: kv[1])]
@@ -158,6 +159,8 @@ class ImplRun:
             if kind in ("fit", "pfit"):
                 d = list(op["d"]) if op.get("typeok", True) else tuple(op["d"])
                 r = [self._reward(x) for x in op["r"]]
+                self.reward_scale = max([self.reward_scale] + [abs(x) for x in r if isinstance(x, (int, float)) and x == x
+                                                               and abs(x) != float("inf")])
                 if op.get("typeok", True):
                     r = reward_container(self.cfg, r)
                 c = op.get("c")
@@ -584,7 +587,15 @@ def compare_op(op, run, rec, mout, stats, ptol=1e-7, pending=None, only_row=None
             finite = [v for _, v in mvals if not math.isnan(v)]
             if finite:
                 mx = max(finite)
-                near = [k for k, v in mvals if not math.isnan(v) and close(v, mx, rtol=1e-7)]
+                if run.cfg["lp"]["k"] in ("lingreedy", "linucb", "lints") or (run.cfg.get("np") or {}).get("k") == "tree":
+                    # expectations through a matrix inverse / float sums of leaf rewards: rounding relative to 1
+                    near = [k for k, v in mvals if not math.isnan(v) and close(v, mx, rtol=1e-7)]
+                else:
+                    # sums and means of rewards (plus O(1) bonuses computed with sqrt / log / exp): two expectations are
+                    # "the same up to rounding" relative to the magnitude of the rewards and of the expectations - not
+                    # relative to 1, or tiny rewards would make every arm a near tie
+                    tol = 1e-12 * max([abs(v) for v in finite] + [run.reward_scale])
+                    near = [k for k, v in mvals if not math.isnan(v) and abs(v - mx) <= tol]
                 if iid in near and len(near) > 1:
                     stats["argmax_near_tie_skipped"] = stats.get("argmax_near_tie_skipped", 0) + 1
                     continue
